@@ -76,6 +76,13 @@ def cases(rng, tier):
                     "mA": rng.choice(["S256", "plain", "S512"]), "mB": rng.choice(["S256", "plain", None]), "b_has": rng.random() < 0.7,
                     "same_scope": rng.random() < 0.7, "cookie": rng.random() < 0.85, "vA": "".join(rng.choice(UNRES) for _ in range(50)),
                     "vB": "".join(rng.choice(UNRES) for _ in range(50))})
+    # an INTERACTIVE provider: the request is suspended for the login page and resumed from what the page's signed token carries
+    # (UserPassJinja2: verify / unpack_token / create_session / authz_part2 — the way the example applications resume a flow)
+    for _ in range(14 * n):
+        m = rng.choice(["S256", "S256", "plain", "S512", None])
+        out.append({"t": "ilogin", "essential": rng.random() < 0.5, "mset": "all", "client": "client_1", "method": m, "has_challenge": rng.random() < 0.85,
+                    "verifier": "".join(rng.choice(UNRES) for _ in range(rng.choice([43, 64, 128]))),
+                    "tv": rng.choice(["right", "right", "flip", "none", "trunc", "case"])})
     for _ in range(40 * n):
         out.append({"t": "rp", "method": rng.choice(["S256", "S384", "S512"]), "len": rng.choice([43, 64, 128]), "mset": rng.choice(["all", "s256", "s384_512"]),
                     "essential": rng.random() < 0.5})
@@ -229,7 +236,83 @@ def _sso2(s, c):
     return {"authz": "ok", "legs": legs, "tries": tries}
 
 
+_ISRV = {}
+
+
+def iserver(essential):
+    """provider with the PKCE add-on and a user-name / password login page"""
+    if essential not in _ISRV:
+        import os, json as _json, re
+        from idpyoidc.server.user_authn.user import UserPassJinja2
+        from idpyoidc.server.util import JSONDictDB
+        from idpyoidc.server.user_authn.authn_context import INTERNETPROTOCOLPASSWORD
+        tdir = os.path.join(opbase.BASEDIR, "template")
+        os.makedirs(tdir, exist_ok=True)
+        open(os.path.join(tdir, "user_pass.jinja2"), "w").write(
+            '<form action="{{ action }}" method="post"><input type="hidden" name="token" value="{{ token }}">'
+            '<input name="username"><input type="password" name="password"></form>')
+        pw = os.path.join(opbase.BASEDIR, "passwd_c15.json")
+        _json.dump({"diana": "krall"}, open(pw, "w"))
+        sv = opbase.make_op(extra={
+            "authentication": {"user": {"acr": INTERNETPROTOCOLPASSWORD, "class": UserPassJinja2,
+                                        "kwargs": {"template": "user_pass.jinja2", "verify_endpoint": "verify/user",
+                                                   "db": {"class": JSONDictDB, "kwargs": {"filename": pw}}}}},
+            "template_dir": tdir,
+            "add_on": {"pkce": {"function": "idpyoidc.server.oauth2.add_on.pkce.add_support", "kwargs": {"essential": essential}}}})
+        sv.context.cdb["client_1"]["redirect_uris"] = [(RED, None)]
+        _ISRV[essential] = sv
+    return _ISRV[essential]
+
+
+def _ilogin(c):
+    import re
+    sv = iserver(c["essential"])
+    az, tk = sv.get_endpoint("authorization"), sv.get_endpoint("token")
+    ch = hval(c["method"] or "plain", c["verifier"]) if c["has_challenge"] else None
+    args = dict(client_id="client_1", redirect_uri=RED, scope=["openid"], state="st-i", response_type="code", nonce="n-i")
+    if ch is not None:
+        args["code_challenge"] = ch
+        if c["method"] is not None:
+            args["code_challenge_method"] = c["method"]
+    o = {"challenge": ch}
+    try:
+        pr = az.parse_request(AuthorizationRequest(**args).to_urlencoded())
+        if "error" in pr:
+            return dict(o, authz="error")
+        resp = az.process_request(pr, http_info={})
+        page = resp.get("http_response") if isinstance(resp, dict) else None
+        mt = re.search(r'name="token" value="([^"]+)"', page or "")
+        if not mt:
+            return dict(o, authz="error", how="no-login-page")
+        method = sv.context.authn_broker.get_method_by_id("user")
+        username = method.verify(username="diana", password="krall", token=mt.group(1))
+        aa = method.unpack_token(mt.group(1))
+        areq = AuthorizationRequest().from_urlencoded(aa["query"])
+        sid = az.create_session(areq, username, aa["authn_class_ref"], aa["iat"], method)
+        out = az.authz_part2(request=areq, session_id=sid)
+        code = out["response_args"]["code"]
+    except Exception as e:
+        return dict(o, authz="exc", e=type(e).__name__)
+    o["authz"] = "ok"
+    ver = _token_verifier(c) or None
+    req = dict(client_id="client_1", client_secret=sv.context.cdb["client_1"]["client_secret"], redirect_uri=RED, grant_type="authorization_code", code=code)
+    if ver is not None:
+        req["code_verifier"] = ver
+    try:
+        tp = tk.parse_request(req)
+        if "error" in tp:
+            o["token"] = "error"
+        else:
+            r = tk.process_request(tp)
+            o["token"] = "tokens" if "response_args" in r and "access_token" in r["response_args"] else "error"
+    except Exception:
+        o["token"] = "exc"
+    return o
+
+
 def impl(c):
+    if c["t"] == "ilogin":
+        return _ilogin(c)
     s = server(c["essential"], c["mset"])
     if c["t"] == "sso2":
         return _sso2(s, c)
@@ -274,6 +357,15 @@ def _methods(mset):
 
 
 def model_lines(c, obs):
+    if c["t"] == "ilogin":
+        # the model's two legs on what the REQUEST carried (the grant must still hold it after the login page)
+        ch, meth, ver = obs.get("challenge"), c["method"], _token_verifier(c) or None
+        lines = ["\t".join(["pkce", "authz", enc_list(_methods("all")), "1" if c["essential"] else "0", "none", _opt(ch), _opt(meth)])]
+        if obs.get("authz") == "ok":
+            m = meth or "plain"
+            hv = hval(m, ver) if (ch is not None and ver is not None) else "?"
+            lines.append("\t".join(["pkce", "token", "1" if ch is not None else "0", enc_str(ch) if ch is not None else "-", enc_str(m) if ch is not None else "-", _opt(ver), enc_str(hv)]))
+        return lines
     if c["t"] == "sso2":
         # every redemption attempt against the challenge THIS code's request carried (what was sent, not what the grant holds now)
         lines = []
@@ -298,6 +390,14 @@ def model_lines(c, obs):
 
 
 def compare(c, obs, outs):
+    if c["t"] == "ilogin":
+        a = outs[0].split("\t")
+        if a[0] == "error":
+            return [] if obs["authz"] != "ok" else ["interactive login: model refuses the authorization request, implementation issues a code"]
+        if obs["authz"] != "ok":
+            return [f"interactive login: model=ok impl={obs}"]
+        want = {"pass": "tokens", "error": "error", "exc": "exc"}[outs[1]]
+        return [] if want == obs["token"] else [f"interactive login, token leg: model={outs[1]} impl={obs['token']} (case {c})"]
     if c["t"] == "sso2":
         d = []
         for (leg, who, ver, r), t in zip(obs["tries"], outs):
@@ -325,6 +425,17 @@ def compare(c, obs, outs):
 
 def oracle(c, obs):
     v = []
+    if c["t"] == "ilogin":
+        if obs.get("authz") == "ok":
+            if c["essential"] and obs["challenge"] is None:
+                v.append({"cls": "essential-not-enforced", "flow": "interactive"})
+            if obs.get("token") == "tokens" and obs["challenge"] is not None:
+                ver = _token_verifier(c) or None
+                if ver is None or hval(c["method"] or "plain", ver) != obs["challenge"]:
+                    v.append({"cls": "wrong-verifier-accepted", "tv": c["tv"], "method": c["method"] or "plain", "flow": "interactive"})
+            if obs.get("token") != "tokens" and c["tv"] == "right" and obs["challenge"] is not None:
+                v.append({"cls": "right-verifier-refused", "flow": "interactive"})
+        return v
     if c["t"] == "sso2":
         for leg, who, ver, r in obs["tries"]:
             L = obs["legs"][leg]
@@ -360,13 +471,15 @@ def known_key(c, v, known):
 
 
 def classify(c, obs):
+    if c["t"] == "ilogin":
+        return f"ilogin:{obs.get('authz')}:{obs.get('token')}"
     if c["t"] == "sso2":
         return "sso2:" + ("cookie" if c["cookie"] else "no-cookie") + ":" + ("same" if c["same_scope"] else "other-scope")
     return f"{c['t']}:{c.get('via', '-')}:{obs['authz']}:{obs.get('token')}"
 
 
 def nontrivial(c, obs):
-    return c["t"] in ("rp", "sso2") or (c["has_challenge"] and c["tv"] != "right") or c["client"] != "client_1" or c["mset"] != "all"
+    return c["t"] in ("rp", "sso2", "ilogin") or (c["has_challenge"] and c["tv"] != "right") or c["client"] != "client_1" or c["mset"] != "all"
 
 
 def generated_obligations():
